@@ -63,9 +63,10 @@ def parse_length(attr_value: str) -> typing.Tuple[float, str]:
   raise ValueError("Bad length syntax")
 
 
-_FAMILIES_ESCAPED_CHAR = re.compile(r"\\(.)")
-_SINGLE_QUOTE_PATTERN = "(?:'(?P<single_quote>(.+?)(?<!\\\\))')"
-_DOUBLE_QUOTE_PATTERN = "(?:\"(?P<double_quote>(.+?)(?<!\\\\))\")"
+_FAMILIES_ESCAPED_CHAR = re.compile(r"\\([\s\S])")
+# a quoted family name is made of escaped characters and of characters other than the quotation mark and the backslash
+_SINGLE_QUOTE_PATTERN = "(?:'(?P<single_quote>(?:\\\\[\\s\\S]|[^'\\\\])+)')"
+_DOUBLE_QUOTE_PATTERN = "(?:\"(?P<double_quote>(?:\\\\[\\s\\S]|[^\"\\\\])+)\")"
 _NO_QUOTE_PATTERN = "(?P<no_quote>(?:\\\\.|[^'\", ])(?:\\\\.|[^'\",])*)"
 
 _FONT_FAMILY_PATTERN = re.compile(
